@@ -420,6 +420,7 @@ class MultiAxis(Axis):
         self.axes = Axes(axes)
         self._name = ",".join([ax.name for ax in self.axes])
         self._values = None  # values not computed unless needed
+        self._members = None # labels of the member axes at the time the values were computed
         self._size = None  
         self._attrs = dict()
 
@@ -427,8 +428,11 @@ class MultiAxis(Axis):
     def values(self):
         """ values as 2-D numpy array, to keep things consistent with Axis
         """
-        if self._values is None:
+        # the member axes are shared with the array that was flattened and can be relabelled: rebuild when they changed
+        members = [ax.values for ax in self.axes]
+        if self._values is None or not all(m.shape == c.shape and np.all(m == c) for m, c in zip(members, self._members)):
             self._values = self._get_values()
+            self._members = [m.copy() for m in members]
         return self._values
 
     def _get_values(self):
